@@ -167,7 +167,8 @@ func (c *c20) feeFloor(n int) {
 			}
 		}
 		for _, mode := range []string{"check", "recheck", "deliver", "simulate-deliver"} {
-			ctx := br.L2.Ctx.WithMinGasPrices(nodeCoins)
+			// the floor does not depend on where the chain is: before the first block (height 0), at it, far beyond it
+			ctx := br.L2.Ctx.WithMinGasPrices(nodeCoins).WithBlockHeight(mon.Pick(rng, []int64{0, 1, 2, br.L2.Ctx.BlockHeight(), 1 << 40}))
 			switch mode {
 			case "check":
 				ctx = ctx.WithIsCheckTx(true)
@@ -399,6 +400,7 @@ func (c *c20) redundant(n int) {
 		tx := c.buildTx(msgs, nil, 1000000, nil, nil)
 		for _, mode := range []string{"check", "recheck", "deliver", "check-simulate"} {
 			ctx, _ := e.L2.Ctx.CacheContext()
+			ctx = ctx.WithBlockHeight(mon.Pick(c.rng, []int64{0, 1, e.L2.Ctx.BlockHeight(), e.L2.Ctx.BlockHeight(), 1 << 40}))
 			simulate := false
 			switch mode {
 			case "check":
